@@ -109,6 +109,21 @@ CHECKS = {
             "byte outside elements 0..n-1 is reported with array, direction and offset.",
             "entitlement of the resampling/upsampling loads follows the opcode table's index expressions; declared alignments larger than the element size prevent flush placement of the last byte; generated-C path not run under guard pages",
             "DESIGN.md 4/C03", True),
+    "C02": ("xemu", "exploration",
+            "exhaustive enumeration of operand tables per opcode on the emulation path against an independently written reference interpreter, plus literal evaluation of the documented pseudo code",
+            "Every non-float opcode in every form (x1/x2/x4, array/constant/parameter operand) is emulated over all 8/16-bit operand values, "
+            "all byte pairs, 16-bit pairs (boundary x all in quick, all 2^32 in thorough), all boundary pairs for 32/64-bit lanes, every "
+            "shift count, accumulation lengths and load index functions; each element is compared with ref/orcref.h; prefixes n=1..48 must "
+            "reproduce the full run; the live table is compared with doc/opcode_table.xml (sizes, presence, pseudo code).",
+            "the reference encodes my reading of the opcode reference (assumptions listed in the evidence); 32/64-bit lanes on boundary alphabets",
+            "DESIGN.md 4/C02", True),
+    "C18": ("xemu+xprog", "exploration",
+            "exhaustive enumeration of all pairs of a structured float operand alphabet per opcode and path (emulation, sse, avx) against the reference, plus JIT-vs-emulation exploration of float programs",
+            "Every float/double opcode form is run on the emulation, sse-native and avx-native paths over all pairs of a 56-value structured "
+            "alphabet per width and compared with an IEEE-with-flush reference (exact bits for finite operands, either operand for equal "
+            "min/max, any NaN where due); float programs are run natively against emulation over n, alignment, 2-D and finite all-pairs tables.",
+            "caller MXCSR default; generated-C path covered by C04/C07; operands outside the alphabet not covered",
+            "DESIGN.md 4/C18", True),
 }
 
 NOT_YET = {}
@@ -149,6 +164,8 @@ def main():
             "add_only": True,
         },
         "engines": [
+            {"name": "xemu", "path": "engines/xemu.c", "serves_properties": ["C02", "C18"],
+             "kind_free_text": "per-opcode operand-table enumerator on a chosen path against ref/orcref.h"},
             {"name": "xmem", "path": "engines/xmem.c", "serves_properties": ["C03"],
              "kind_free_text": "guard-page explorer: per-array mappings with PROT_NONE neighbours, exact entitlement, native + emulation paths"},
             {"name": "xabi", "path": "engines/xabi.c", "serves_properties": ["C10"],
